@@ -14,6 +14,10 @@ import (
 	"verif/mc/ev"
 	"verif/mc/faultdb"
 
+	"context"
+
+	"github.com/NethermindEth/juno/pruner"
+
 	"github.com/NethermindEth/juno/blockchain"
 	"github.com/NethermindEth/juno/core"
 	"github.com/NethermindEth/juno/core/felt"
@@ -28,6 +32,17 @@ type node struct {
 	ref      []*chain.Entry // reference chain the node should hold
 	seen     []*chain.Entry // every block ever offered (for probes)
 	l1       *core.L1Head
+	pruning  bool   // the node is configured like a pruning node (pruning-aware filter initialiser)
+	floor    uint64 // blocks below it have been pruned (reference)
+}
+
+func (n *node) open() {
+	if n.pruning {
+		n.bc = blockchain.New(n.db, chain.Net, blockchain.WithNewState(n.newState),
+			blockchain.WithRunningEventFilterInitializer(pruner.InitializeRunningEventFilter))
+		return
+	}
+	n.bc = chain.NewNode(n.db, n.newState)
 }
 
 func (n *node) head() *chain.Entry {
@@ -83,8 +98,8 @@ var errNA = errors.New("op not applicable in this state")
 
 var (
 	opRevert = op{"revert", func(n *node) error {
-		if len(n.ref) == 0 {
-			return errNA
+		if len(n.ref) == 0 || (n.pruning && n.head().Block.Number <= n.floor+1 && n.floor > 0) {
+			return errNA // the head may not move into the pruned region
 		}
 		if err := n.bc.RevertHead(); err != nil {
 			return err
@@ -109,11 +124,23 @@ var (
 		if err := n.bc.WriteRunningEventFilter(); err != nil {
 			return err
 		}
-		n.bc = chain.NewNode(n.db, n.newState)
+		n.open()
 		return nil
 	}}
 	opRestartU = op{"restart-ungraceful", func(n *node) error {
-		n.bc = chain.NewNode(n.db, n.newState)
+		n.open()
+		return nil
+	}}
+	// prune everything below the head in many small batches (1-byte threshold = one batch per block)
+	opPrune = op{"prune", func(n *node) error {
+		h := n.head()
+		if h == nil || h.Block.Number == 0 || !n.pruning {
+			return errNA
+		}
+		if _, _, err := pruner.PruneUpto(context.Background(), n.db, h.Block.Number, 1); err != nil {
+			return err
+		}
+		n.floor = h.Block.Number
 		return nil
 	}}
 	opQuery = op{"query", func(n *node) error { // warms the in-memory filter / caches
@@ -125,15 +152,23 @@ var (
 			return err
 		}
 		defer ef.Close()
+		if n.floor > 0 { // queries reaching below the retention floor are refused as pruned, by design
+			if err := ef.SetRangeEndBlockByNumber(blockchain.EventFilterFrom, n.floor); err != nil {
+				return err
+			}
+		}
 		_, _, err = ef.Events(nil, 1000)
 		return err
 	}}
 )
 
 // naiveEvents scans the reference receipts.
-func naiveEvents(ref []*chain.Entry, from *felt.Felt) []string {
+func naiveEvents(ref []*chain.Entry, from *felt.Felt, floor uint64) []string {
 	var out []string
 	for _, e := range ref {
+		if e.Block.Number < floor {
+			continue
+		}
 		for _, rc := range e.Block.Receipts {
 			for i, evn := range rc.Events {
 				if from == nil || evn.From.Equal(from) {
@@ -145,7 +180,7 @@ func naiveEvents(ref []*chain.Entry, from *felt.Felt) []string {
 	return out
 }
 
-func queryEvents(bc *blockchain.Blockchain, from *felt.Felt) ([]string, error) {
+func queryEvents(bc *blockchain.Blockchain, from *felt.Felt, floor uint64) ([]string, error) {
 	var addrs []felt.Address
 	if from != nil {
 		addrs = []felt.Address{felt.Address(*from)}
@@ -155,6 +190,11 @@ func queryEvents(bc *blockchain.Blockchain, from *felt.Felt) ([]string, error) {
 		return nil, err
 	}
 	defer ef.Close()
+	if floor > 0 {
+		if err := ef.SetRangeEndBlockByNumber(blockchain.EventFilterFrom, floor); err != nil {
+			return nil, err
+		}
+	}
 	var out []string
 	var tok *blockchain.ContinuationToken
 	for g := 0; g < 10000; g++ {
@@ -175,7 +215,7 @@ func queryEvents(bc *blockchain.Blockchain, from *felt.Felt) ([]string, error) {
 }
 
 // checkAgainstRef: the node (long-lived or freshly restarted) must describe exactly the reference chain.
-func checkAgainstRef(r *ev.Run, what, seqName string, bc *blockchain.Blockchain, ref []*chain.Entry, key func(string) string, detail map[string]any) bool {
+func checkAgainstRef(r *ev.Run, what, seqName string, bc *blockchain.Blockchain, ref []*chain.Entry, floor uint64, key func(string) string, detail map[string]any) bool {
 	fail := func(kind string, extra map[string]any) bool {
 		for k, v := range detail {
 			extra[k] = v
@@ -197,6 +237,9 @@ func checkAgainstRef(r *ev.Run, what, seqName string, bc *blockchain.Blockchain,
 		return fail("height-wrong", map[string]any{"got": h, "err": fmt.Sprint(err), "want": want.Block.Number})
 	}
 	for _, e := range ref {
+		if e.Block.Number < floor {
+			continue // pruned: what may be answered below the floor is C16's business
+		}
 		b, err := bc.BlockByNumber(e.Block.Number)
 		if err != nil || !b.Hash.Equal(e.Block.Hash) || len(b.Transactions) != len(e.Block.Transactions) || len(b.Receipts) != len(e.Block.Receipts) {
 			return fail("block-not-fully-present", map[string]any{"block": e.Block.Number, "err": fmt.Sprint(err)})
@@ -253,8 +296,8 @@ func checkAgainstRef(r *ev.Run, what, seqName string, bc *blockchain.Blockchain,
 	}
 	// event index vs naive scan (false negatives AND false positives at the API level are wrong answers)
 	for _, from := range []*felt.Felt{nil, &chain.AddrA, &chain.AddrB} {
-		got, err := queryEvents(bc, from)
-		wantEv := naiveEvents(ref, from)
+		got, err := queryEvents(bc, from, floor)
+		wantEv := naiveEvents(ref, from, floor)
 		if err != nil || strings.Join(got, ",") != strings.Join(wantEv, ",") {
 			return fail("event-query-differs-from-naive-scan", map[string]any{"got": got, "want": wantEv, "err": fmt.Sprint(err)})
 		}
@@ -267,8 +310,8 @@ type seqResult struct {
 	applicable bool
 }
 
-func baseImages(r *ev.Run, newState bool) map[string]func() *node {
-	mk := func(stores ...string) func() *node {
+func baseImages(r *ev.Run, newState bool) map[string]func(pruning bool) *node {
+	mk := func(stores ...string) func(pruning bool) *node {
 		// build once, copy per use
 		d := memory.New()
 		n := &node{db: faultdb.Wrap(d), newState: newState}
@@ -279,13 +322,13 @@ func baseImages(r *ev.Run, newState bool) map[string]func() *node {
 			}
 		}
 		ref, seen := n.ref, n.seen
-		return func() *node {
-			c := &node{db: faultdb.Wrap(d.Copy()), newState: newState, ref: append([]*chain.Entry{}, ref...), seen: append([]*chain.Entry{}, seen...)}
-			c.bc = chain.NewNode(c.db, newState)
+		return func(pruning bool) *node {
+			c := &node{db: faultdb.Wrap(d.Copy()), newState: newState, ref: append([]*chain.Entry{}, ref...), seen: append([]*chain.Entry{}, seen...), pruning: pruning}
+			c.open()
 			return c
 		}
 	}
-	return map[string]func() *node{
+	return map[string]func(pruning bool) *node{
 		"empty":    mk(),
 		"3-blocks": mk("deployA", "A.s0=1", "sys1.write"),
 	}
@@ -299,7 +342,7 @@ func TestCheck(t *testing.T) {
 	for _, s := range storeNames {
 		ops = append(ops, storeOp(s))
 	}
-	ops = append(ops, opRevert, opL1, opSnapshot, opRestartG, opRestartU, opQuery)
+	ops = append(ops, opRevert, opL1, opSnapshot, opRestartG, opRestartU, opQuery, opPrune)
 	depth := ev.Pick(r, 2, 3)
 	// deeper, targeted sequences over a reduced alphabet (snapshot / reorg / restart interplay)
 	deepOps := []op{storeOp("empty"), storeOp("A.s0=1"), opRevert, opSnapshot, opRestartU, opQuery}
@@ -329,6 +372,9 @@ func TestCheck(t *testing.T) {
 		{sx, opRestartG, opRevert, sy, opRestartU, opQuery},
 		{sx, opQuery, opRevert, sy, opQuery},
 		{sx, opL1, opRevert, sy, opRestartU},
+		{sy, sy, opPrune, sy, opRestartU, opQuery},
+		{sy, opPrune, sy, sy, opPrune, sy, opRevert},
+		{sy, sy, sy, opPrune, opRestartG, sy, opPrune},
 	} {
 		seqs = append(seqs, sc)
 	}
@@ -350,7 +396,7 @@ func TestCheck(t *testing.T) {
 	var crashRuns, faultRuns, applicableSeqs int64
 	for _, newState := range []bool{false, true} {
 		bases := baseImages(r, newState)
-		for baseName, mkNode := range bases {
+		for baseName, mkNodeP := range bases {
 			label := fmt.Sprintf("%s base=%s", backendName(newState), baseName)
 			ev.Par(len(seqs), 14, func(si int) {
 				if r.OutOfTime() {
@@ -359,6 +405,13 @@ func TestCheck(t *testing.T) {
 				}
 				seq := seqs[si]
 				name := seqName(seq)
+				pruning := strings.Contains(name, "prune")
+				mkNode := func() *node { return mkNodeP(pruning) }
+				openOn := func(d *faultdb.DB) *blockchain.Blockchain {
+					t := &node{db: d, newState: newState, pruning: pruning}
+					t.open()
+					return t.bc
+				}
 				key := func(kind string) string { return kind + " " + label }
 				// ---- reference run (no fault): record commit boundaries and reference chains per op ----
 				n := mkNode()
@@ -366,8 +419,9 @@ func TestCheck(t *testing.T) {
 				type boundary struct {
 					commit int
 					ref    []*chain.Entry
+					floor  uint64
 				}
-				bounds := []boundary{{0, append([]*chain.Entry{}, n.ref...)}}
+				bounds := []boundary{{0, append([]*chain.Entry{}, n.ref...), 0}}
 				for _, o := range seq {
 					err := o.run(n)
 					if errors.Is(err, errNA) {
@@ -377,7 +431,7 @@ func TestCheck(t *testing.T) {
 						r.Violate(key("op-fails-without-fault "+o.name), map[string]any{"sequence": name, "err": err.Error()})
 						return
 					}
-					bounds = append(bounds, boundary{n.db.Commits(), append([]*chain.Entry{}, n.ref...)})
+					bounds = append(bounds, boundary{n.db.Commits(), append([]*chain.Entry{}, n.ref...), n.floor})
 				}
 				mu.Lock()
 				applicableSeqs++
@@ -386,7 +440,7 @@ func TestCheck(t *testing.T) {
 				total := n.db.Commits()
 				finalImage := chain.ImageHash(n.db.Inner())
 				// the long-lived node itself must describe the reference chain at the end
-				if !checkAgainstRef(r, "long-lived node, no fault", name, n.bc, n.ref, key, map[string]any{}) {
+				if !checkAgainstRef(r, "long-lived node, no fault", name, n.bc, n.ref, n.floor, key, map[string]any{}) {
 					return
 				}
 				// ---- (a) crash after every committed write ----
@@ -400,7 +454,7 @@ func TestCheck(t *testing.T) {
 					for j+1 < len(bounds) && bounds[j+1].commit <= k {
 						j++
 					}
-					fresh := chain.NewNode(img.Copy(), newState)
+					fresh := openOn(faultdb.Wrap(img.Copy()))
 					mu.Lock()
 					crashRuns++
 					mu.Unlock()
@@ -421,17 +475,37 @@ func TestCheck(t *testing.T) {
 						r.Violate(key("crash-image-height-is-neither-before-nor-after"), map[string]any{"sequence": name, "detail": detail, "height": h})
 						continue
 					}
-					if !checkAgainstRef(r, "fresh node on crash image", name, fresh, ref, key, detail) {
+					// floor: mid-operation the stricter (post-op) floor applies - everything at or above the prune
+					// target must be intact in every intermediate image
+					floor := bounds[j].floor
+					midOp := bounds[j].commit != k && j+1 < len(bounds)
+					if midOp {
+						floor = bounds[j+1].floor
+					}
+					if !checkAgainstRef(r, "fresh node on crash image", name, fresh, ref, floor, key, detail) {
 						continue
 					}
+					if midOp && seq[j].name == "prune" {
+						// an interrupted prune must be resumable and end where the uninterrupted one ended
+						rd := faultdb.Wrap(img.Copy())
+						if _, _, err := pruner.PruneUpto(context.Background(), rd, floor, 1); err != nil {
+							r.Violate(key("resumed-prune-fails-after-crash"), map[string]any{"sequence": name, "detail": detail, "err": err.Error()})
+							continue
+						}
+						if chain.ImageHash(rd.Inner()) != chain.ImageHash(n.db.Image(bounds[j+1].commit)) {
+							r.Violate(key("resumed-prune-ends-in-a-different-image"), map[string]any{"sequence": name, "detail": detail,
+								"diff": bucketSummary(chain.DiffImages(chain.Image(n.db.Image(bounds[j+1].commit)), chain.Image(rd.Inner())))})
+							continue
+						}
+					}
 					// the next block can be stored normally
-					tmp := &node{db: faultdb.Wrap(img.Copy()), newState: newState, ref: append([]*chain.Entry{}, ref...)}
-					tmp.bc = chain.NewNode(tmp.db, newState)
+					tmp := &node{db: faultdb.Wrap(img.Copy()), newState: newState, ref: append([]*chain.Entry{}, ref...), pruning: pruning, floor: floor}
+					tmp.open()
 					if err := storeOp("empty").run(tmp); err != nil {
 						r.Violate(key("next-block-cannot-be-stored-after-crash"), map[string]any{"sequence": name, "detail": detail, "err": err.Error()})
 						continue
 					}
-					checkAgainstRef(r, "fresh node on crash image + next block", name, tmp.bc, tmp.ref, key, detail)
+					checkAgainstRef(r, "fresh node on crash image + next block", name, tmp.bc, tmp.ref, floor, key, detail)
 				}
 				// ---- (b) the k-th committed write fails ----
 				for k := 1; k <= total; k++ {
@@ -447,6 +521,7 @@ func TestCheck(t *testing.T) {
 					for i, o := range seq {
 						pre := chain.ImageHash(m.db.Inner())
 						preRef := append([]*chain.Entry{}, m.ref...)
+						preFloor := m.floor
 						err := o.run(m)
 						if err == nil {
 							continue
@@ -458,15 +533,19 @@ func TestCheck(t *testing.T) {
 						}
 						failedAt, before = i, pre
 						detail := map[string]any{"fail_commit": k, "failed_op": o.name, "op_index": i}
-						// nothing of the failed operation is durable
-						if chain.ImageHash(m.db.Inner()) != before {
+						checkFloor := preFloor
+						if o.name == "prune" {
+							// a prune is a multi-batch operation: earlier batches stay durable; everything at or above
+							// its target must be intact, and it must be resumable
+							checkFloor = preRef[len(preRef)-1].Block.Number
+						} else if chain.ImageHash(m.db.Inner()) != before { // nothing of the failed operation is durable
 							r.Violate(key("failed-"+opClass(o.name)+"-left-partial-writes"), map[string]any{"sequence": name, "detail": detail,
 								"diff": chain.DiffImages(chain.Image(m.db.Inner()), chain.Image(m.db.Inner()))})
 							ok = false
 							break
 						}
 						// memory == disk: WITHOUT restart the node still describes the pre-op chain
-						if !checkAgainstRef(r, "long-lived node after failed "+opClass(o.name), name, m.bc, preRef, func(kind string) string {
+						if !checkAgainstRef(r, "long-lived node after failed "+opClass(o.name), name, m.bc, preRef, checkFloor, func(kind string) string {
 							return key("memory-disagrees-with-disk-after-failed-" + opClass(o.name) + " " + kind)
 						}, detail) {
 							ok = false
@@ -495,7 +574,7 @@ func TestCheck(t *testing.T) {
 					}
 					if chain.ImageHash(m.db.Inner()) != finalImage {
 						// tolerated only if observationally identical to the no-fault twin
-						if !checkAgainstRef(r, "long-lived node after recovered fault", name, m.bc, m.ref, key, map[string]any{"fail_commit": k}) {
+						if !checkAgainstRef(r, "long-lived node after recovered fault", name, m.bc, m.ref, m.floor, key, map[string]any{"fail_commit": k}) {
 							continue
 						}
 						r.Outcome("final-image-differs-but-observations-agree")
@@ -518,6 +597,16 @@ func TestCheck(t *testing.T) {
 	r.Sample(map[string]any{"sequences": len(seqs), "applicable_x_bases_x_backends": applicableSeqs})
 	r.Assume = append(r.Assume, "a committed write (batch) is atomic at the KV seam (backend contract, see C15); crashes are modelled between commits", "memory backend under the faultdb proxy (Pebble's own crash atomicity of a synced batch is trusted)")
 	r.Finish()
+}
+
+func bucketSummary(diff []string) string {
+	m := map[string]int{}
+	for _, d := range diff {
+		if len(d) >= 3 {
+			m[d[:3]]++
+		}
+	}
+	return fmt.Sprint(m)
 }
 
 func seqName(s []op) string {
